@@ -3,3 +3,4 @@ pub mod enc;
 pub mod gen;
 pub mod ctl;
 pub mod codec;
+pub mod ops;
